@@ -181,14 +181,14 @@ def run(res, tier, seed):
             stats["cli_runs"] += 1
             got = [(l, t, os.path.realpath(os.path.join(d, p)) if p != "<unknown file>" else p, ln, a, b)
                    for l, t, p, ln, a, b in parse_compact(ct)]
-            # across files the order follows random file ids (known finding F-15): compare the
-            # sequence inside each file, and the multiset overall
+            # the channels list the same items in the same order (files by name, then position; the
+            # order across files was random before the repair b7b7d40)
             def per_file(seq):
                 d_ = {}
                 for it in seq:
                     d_.setdefault(it[2], []).append(it)
                 return d_
-            if per_file(got) != per_file(want) and first is None:
+            if got != want and first is None:
                 first = {"what": f"--compact and --json disagree ({' '.join(allf) or 'base file only'}): "
                                  f"{[x for x in want if x not in got][:2]} vs {[x for x in got if x not in want][:2]}",
                          "dir": d}
@@ -200,7 +200,7 @@ def run(res, tier, seed):
             pp = parse_pretty(pt)
             gotp = [(l, t, os.path.realpath(os.path.join(d, p)) if p != "<unknown file>" else p) for l, t, p, *_ in pp]
             wantp = [(a, b, c) for a, b, c, *_ in want]
-            if per_file(gotp) != per_file(wantp) and first is None:
+            if gotp != wantp and first is None:
                 first = {"what": f"pretty output and --json disagree ({' '.join(allf) or 'base file only'}): "
                                  f"{len(gotp)} vs {len(want)} items", "dir": d}
             else:
